@@ -63,6 +63,10 @@ pub struct ReqSpec {
     /// with upgrades.
     #[serde(default)]
     pub redirect: Option<u8>,
+    /// the caller labels the request HTTP/1.0 (only where it would have been labelled HTTP/1.1): it
+    /// travels over the same HTTP/1.1 connections and carries the same body
+    #[serde(default)]
+    pub ver10: bool,
 }
 
 /// Deterministic extra headers for request (`dir` 0) or response (`dir` 1) number `id`.
@@ -1061,7 +1065,10 @@ fn build_request(case: &NetCase, id: usize, spec: &ReqSpec) -> http::Request<Chu
     }
     http::Request::builder()
         .method(METHODS[spec.method as usize % METHODS.len()])
-        .version(request_version(case, spec))
+        .version(match request_version(case, spec) {
+            http::Version::HTTP_11 if spec.ver10 => http::Version::HTTP_10,
+            v => v,
+        })
         .uri({
             let (p, q) = target_of(id, spec.target);
             match q {
@@ -1440,7 +1447,7 @@ pub fn run_net_case(case: &NetCase) -> Result<Obs, String> {
 pub fn req_strategy(nsrv: u8, allow_cancel: bool, allow_error: bool) -> impl proptest::strategy::Strategy<Value = ReqSpec> {
     use proptest::prelude::*;
     (
-        (0..nsrv, any::<bool>(), 0u8..6, prop_oneof![2 => Just(0u8), 3 => any::<u8>()]),
+        (0..nsrv, any::<bool>(), 0u8..6, prop_oneof![2 => Just(0u8), 3 => any::<u8>()], prop_oneof![5 => Just(false), 1 => Just(true)]),
         prop_oneof![2 => 0u16..6, 2 => 0u16..40, 1 => 40u16..120],
         (prop_oneof![2 => Just(0u16), 2 => 1u16..300, 1 => 300u16..20000], 1u8..6, prop_oneof![3 => Just(0u8), 1 => 1u8..4], any::<bool>()),
         prop_oneof![2 => Just(0u8), 2 => 1u8..12, 1 => 12u8..40],
@@ -1449,7 +1456,7 @@ pub fn req_strategy(nsrv: u8, allow_cancel: bool, allow_error: bool) -> impl pro
         if allow_error { prop_oneof![9 => Just(false), 1 => Just(true)].boxed() } else { Just(false).boxed() },
         prop_oneof![3 => Just(0u8), 2 => Just(1u8), 1 => Just(2u8), 2 => Just(3u8)],
     )
-        .prop_map(|((server, h2, method, hdrs), start, (body_len, body_chunks, body_gap, exact_hint), handler_delay, (resp_len, resp_chunks, resp_gap), cancel, handler_error, target)| ReqSpec {
+        .prop_map(|((server, h2, method, hdrs, ver10), start, (body_len, body_chunks, body_gap, exact_hint), handler_delay, (resp_len, resp_chunks, resp_gap), cancel, handler_error, target)| ReqSpec {
             server,
             h2,
             method,
@@ -1468,6 +1475,7 @@ pub fn req_strategy(nsrv: u8, allow_cancel: bool, allow_error: bool) -> impl pro
             upgrade: false,
             hdrs,
             redirect: None,
+            ver10,
         })
 }
 
